@@ -8,7 +8,23 @@ fn usage() -> ! {
     std::process::exit(2);
 }
 
+struct StderrLog;
+impl log::Log for StderrLog {
+    fn enabled(&self, _: &log::Metadata<'_>) -> bool {
+        true
+    }
+    fn log(&self, r: &log::Record<'_>) {
+        eprintln!("[{} {}] {}", r.level(), r.target(), r.args());
+    }
+    fn flush(&self) {}
+}
+static LOGGER: StderrLog = StderrLog;
+
 fn main() {
+    if std::env::var_os("VERIF_TRACE").is_some() {
+        let _ = log::set_logger(&LOGGER);
+        log::set_max_level(log::LevelFilter::Trace);
+    }
     let args: Vec<String> = std::env::args().skip(1).collect();
     if args.is_empty() {
         usage();
